@@ -66,6 +66,7 @@ func WithSerialReadTimeout(readTimeout time.Duration) func(c *SerialClient) {
 // On modbus exception nil is returned as response and error wraps value of type packet.ErrorResponseRTU
 // User errors.Is and errors.As to check if error wraps packet.ErrorResponseRTU
 func (c *SerialClient) Do(ctx context.Context, req packet.Request) (packet.Response, error) {
+	simBeforeLock(&c.mu, true)
 	c.mu.Lock()
 	defer c.mu.Unlock()
 
@@ -160,6 +161,7 @@ func (c *SerialClient) do(ctx context.Context, data []byte, expectedLen int) ([]
 
 // Close closes serial connection to the device
 func (c *SerialClient) Close() error {
+	simBeforeLock(&c.mu, true)
 	c.mu.Lock()
 	defer c.mu.Unlock()
 
